@@ -1,4 +1,5 @@
 import NibabelModel.Model.C16
+import NibabelModel.Model.C16_Ext
 /-! GENERATED on every run by harness/props/c16.py `regen()` from nibabel/streamlines/tck.py and trk.py
     of the working tree — do not edit.  The `_eq_model` theorems tie the hand-written model to the
     current source text; the property theorems in Props/C16 are stated about these definitions. -/
@@ -36,6 +37,27 @@ def trkMaxProps : Nat := 10
 def trkNameFields : Nat := 10
 def trkPropFields : Nat := 10
 
+/-- read off the AST of `TckFile._read` / `TrkFile._read`: the `f.seek(start_position, os.SEEK_xxx)` and whether it is
+    the only statement of the `finally:` clause of a `try` that encloses every `yield` (and directly follows
+    `start_position = f.tell()`), or the last statement of the body -/
+def tckReadSeek : SeekSpec := ⟨.set, true⟩
+def trkReadSeek : SeekSpec := ⟨.set, true⟩
+
+/-- byte offsets of the TRK header fields in `header_2_dtype` -/
+def trkOffNs : Nat := 36
+def trkOffScalarNames : Nat := 38
+def trkOffNp : Nat := 238
+def trkOffPropNames : Nat := 240
+def trkOffB : Nat := 440
+def trkOffN : Nat := 988
+def trkOffVersion : Nat := 992
+def trkOffHdrSize : Nat := 996
+
+theorem readSeek_eq_model : tckReadSeek = Nb.C16.seekFixed ∧ trkReadSeek = Nb.C16.seekFixed := by decide
+theorem trkOffsets_eq_model :
+    trkOffNs = Nb.C16.trkOffNs ∧ trkOffScalarNames = Nb.C16.trkOffScalarNames ∧ trkOffNp = Nb.C16.trkOffNp ∧
+    trkOffPropNames = Nb.C16.trkOffPropNames ∧ trkOffB = Nb.C16.trkOffB ∧ trkOffN = Nb.C16.trkOffN ∧
+    trkOffVersion = Nb.C16.trkOffVersion ∧ trkOffHdrSize = Nb.C16.trkOffHdrSize := by decide
 theorem tckHdrOffset_eq_model (n : Nat) : tckHdrOffset n = Nb.C16.tckHdrOffset n := rfl
 theorem tckBufferBytes_eq_model (n : Nat) : tckBufferBytes n = Nb.C16.tckBufferBytes n := rfl
 theorem consts_eq_model :
